@@ -4,9 +4,11 @@
 // ASSUME: GALOIS_FORCE_STANDALONE (the repository's own switch) routes FixedSizeAllocator to malloc; the Galois heaps are C09's subject
 // ASSUME: ONE worker thread operates on the worklist (chunk hand-off between workers, the executor and the abort path are separate obligations); pool configuration 0 = 1 thread, 1 = 2 threads on 2 sockets with the worker being thread 1, 2 = 2 threads on 1 socket with the worker being thread 1; the worklist object is constructed on thread 0 as for_each_impl does
 // ASSUME: operation KINDS are enumerated as separate solver queries (vf_param); item values are solver variables in 0..3; --max-field-sensitivity-array-size 300 lets CBMC track the 256-byte per-thread blocks per byte (otherwise pointers stored there are never constant-propagated)
-// OB: ob_wl_chunk_all4 tier=thorough solver=cadical unwind=32 timeout=120 cbmc="--max-field-sensitivity-array-size 300" params=5,4,4,4,4,3 bounds="ChunkFIFO/ChunkLIFO/PerSocketChunkFIFO/PerSocketChunkLIFO/PerSocketChunkBag <2>: EVERY sequence of 4 ops from {push, push range, pop, flush} x 3 pool configurations (3840 queries)" desc="work conservation, one worker, exhaustive over kind sequences"
-// OB: ob_wl_ptchunk_all4 tier=thorough solver=cadical unwind=32 timeout=120 cbmc="--max-field-sensitivity-array-size 300" params=2,3,3,3,3,3 bounds="PerThreadChunkFIFO/LIFO <2>: EVERY sequence of 4 ops from {push, push range, pop} x 3 pool configurations (486 queries)" desc="work conservation, one worker, exhaustive over kind sequences"
-// OB: ob_wl_chunk3 tier=thorough solver=cadical unwind=32 timeout=120 cbmc="--max-field-sensitivity-array-size 300" params=5,6,1 bounds="the five ChunkMaster worklists with chunk size 3, table SEQ_F" desc="work conservation, one worker, chunk size 3"
+// OB: ob_wl_chunk_all4 tier=thorough solver=cadical unwind=32 timeout=600 cbmc="--max-field-sensitivity-array-size 300" params=5,4,4,4,4,3 param_limit=300 bounds="ChunkFIFO/ChunkLIFO/PerSocketChunkFIFO/PerSocketChunkLIFO/PerSocketChunkBag <2>: sequences of 4 ops from {push, push range, pop, flush} x 3 pool configurations: 300 of the 3840 (type, kind sequence, configuration) combinations, chosen by VERIF_SEED" desc="work conservation, one worker, sampled kind sequences"
+// OB: ob_wl_ptchunk_all4 tier=thorough solver=cadical unwind=32 timeout=600 cbmc="--max-field-sensitivity-array-size 300" params=2,3,3,3,3,3 param_limit=120 bounds="PerThreadChunkFIFO/LIFO <2>: sequences of 4 ops from {push, push range, pop} x 3 pool configurations: 120 of the 486 combinations, chosen by VERIF_SEED" desc="work conservation, one worker, sampled kind sequences"
+// OB: ob_wl_chunk_rows tier=thorough solver=cadical unwind=32 timeout=600 cbmc="--max-field-sensitivity-array-size 300" params=6,3 bounds="the five ChunkMaster worklists <2>, all 6 rows of SEQ_F x 3 pool configurations" desc="work conservation, one worker"
+// OB: ob_wl_ptchunk_rows tier=thorough solver=cadical unwind=32 timeout=600 cbmc="--max-field-sensitivity-array-size 300" params=5,3 bounds="PerThreadChunkFIFO/LIFO <2>, all 5 rows of SEQ_N x 3 pool configurations" desc="work conservation, one worker"
+// OB: ob_wl_chunk3 tier=thorough solver=cadical unwind=32 timeout=600 cbmc="--max-field-sensitivity-array-size 300" params=5,6,1 bounds="the five ChunkMaster worklists with chunk size 3, table SEQ_F" desc="work conservation, one worker, chunk size 3"
 #include "C01_wl_common.h"
 #include "galois/worklists/Chunk.h"
 #include "galois/worklists/PerThreadChunk.h"
@@ -62,3 +64,7 @@ OB(wl_chunk3) {
   default: c01::conserve_table<PerSocketChunkBag<3>>(c01::SEQ_F3, 6, 1); break;
   }
 }
+OB(wl_chunk_rows) {
+  c01::conserve_table<ChunkFIFO<2>, ChunkLIFO<2>, PerSocketChunkFIFO<2>, PerSocketChunkLIFO<2>, PerSocketChunkBag<2>>(c01::SEQ_F, 6);
+}
+OB(wl_ptchunk_rows) { c01::conserve_table<PerThreadChunkFIFO<2>, PerThreadChunkLIFO<2>>(c01::SEQ_N, 5); }
